@@ -121,7 +121,7 @@ def _build_rv(xknx, name, variant, cb):
 
 def _dpt_notations(cls, k):
     """the same DPT class in the notations GroupAddressDPT.set accepts"""
-    opts = [cls]
+    opts = []            # (a DPT class object is NOT a notation parse_transcoder accepts — it is in INVALID_DPTS)
     if cls.dpt_main_number is not None:
         opts.append({"main": cls.dpt_main_number, "sub": cls.dpt_sub_number})
         if cls.dpt_sub_number is not None:
@@ -133,8 +133,8 @@ def _dpt_notations(cls, k):
     return opts[k % len(opts)]
 
 
-INVALID_DPTS = ["nonsense", 9999, "9.9999", {"main": "x", "sub": None}, None, 3.14, {"main": 9}, ""]
-INVALID_ADDRS = ["abc", "1/2/3/4", 70000, "32/0/0", -1, "i-", None]
+INVALID_DPTS = ["nonsense", 9999, "9.9999", {"main": "x", "sub": None}, None, 3.14, [9, 1], "", (9, 1), "1.", {"main": None}, DPTBase, ALL_DPTS[40]]
+INVALID_ADDRS = ["abc", "1/2/3/4", 70000, "32/0/0", -1, "i-", None, "0/0/0", 0, 1.5, "2/2048", "1/8/0"]
 
 
 def _payload(spec):
@@ -155,10 +155,11 @@ def _dst(d):
     return IndividualAddress("1.2.3") if d == "x" else P.addr_obj(d)
 
 
-def _table_arg(tbl):
-    """[[addr, dpt], ...] (JSON) -> mapping for GroupAddressDPT.set; later duplicates of an address use another notation"""
+def _table_arg(tbl, meta=None):
+    """[[addr, dpt], ...] (JSON) -> mapping for GroupAddressDPT.set; `meta` receives, per mapping key, what the entry
+    denotes according to the SPEC (address index or x, DPT id or x) — the model's input, independent of the implementation"""
     m = {}
-    for k, (a, d) in enumerate(tbl):
+    for a, d in tbl:
         addr = INVALID_ADDRS[a[1] % len(INVALID_ADDRS)] if a[0] == "bad" else P.addr_arg(a[1], a[2])
         if d[0] == "bad":
             dpt = INVALID_DPTS[d[1] % len(INVALID_DPTS)]
@@ -169,7 +170,34 @@ def _table_arg(tbl):
         except TypeError:
             continue
         m[addr] = dpt
+        if meta is not None:
+            meta[addr] = ("x" if a[0] == "bad" else str(a[1]), "x" if d[0] == "bad" else str(_dpt_id(ALL_DPTS[d[1] % len(ALL_DPTS)])))
     return m
+
+
+def _run_tbl(case):
+    logging.disable(logging.CRITICAL)
+    try:
+        g = XKNX().group_address_dpt
+        toks = []
+        for part in case["parts"]:              # several set() calls accumulate
+            meta = {}
+            m = _table_arg(part, meta)
+            try:
+                g.set(m)
+            except Exception as e:  # noqa: BLE001
+                return {"out": f"set-raised:{type(e).__name__}", "line": None, "diff": None, "hit": False}
+            toks += [f"{meta[k][0]}:{meta[k][1]}" for k in m]
+        n = len(P.ADDR_POOL)
+        got = []
+        for i in range(n):
+            c = g.get(P.addr_obj(i))
+            got.append("-" if c is None else str(_dpt_id(c)))
+        out = ",".join(got)
+        return {"out": out, "line": f"eager table {n} {','.join(toks) if toks else '-'}", "expect": out, "diff": None,
+                "hit": any(x != "-" for x in got)}
+    finally:
+        logging.disable(logging.NOTSET)
 
 
 # ----------------------------------------------------------------------------- generation
@@ -249,7 +277,15 @@ def generate(rng, tier):
     from xknx.dpt import DPTScaling, DPTTemperature, DPTValue1Count
     own = {"RemoteValueScaling": DPTScaling, "RemoteValueColorRGBW": None, "RemoteValueRaw": None,
            "RemoteValueSetpointShift": DPTValue1Count, "RemoteValueByLength": DPTTemperature}
-    reps = 40 if thorough else 9
+    reps = 150 if thorough else 30
+    # table stream: GroupAddressDPT.set / get alone
+    for _ in range(1500 if thorough else 300):
+        parts = []
+        for _p in range(rng.choice([1, 1, 2, 3])):
+            part = _gen_table(rng, [rng.randrange(len(P.ADDR_POOL)) for _ in range(rng.randint(0, 6))], rng.choice(ALL_DPTS))
+            rng.shuffle(part)
+            parts.append(part)
+        yield {"kind": "tbl", "parts": parts}
     for name in RV_CLASSES:
         for variant in range(len(RV_VARIANTS[name])):
             c = _rv_dpt_class(name, variant)
@@ -283,7 +319,7 @@ def generate(rng, tier):
                        "tg": {"dst": dst, "apci": rng.choice(["w", "w", "w", "r", "r", "q", "o"]), "payload": pay},
                        "prior": prior, "always": rng.random() < 0.25}
     # device stream
-    ndev = 25 if thorough else 5
+    ndev = 80 if thorough else 15
     for cname in P.device_classes():
         for k in range(ndev):
             spec = P.random_spec(rng, cname, 6, rng.choice([0.3, 0.6, 0.9]))
@@ -593,7 +629,7 @@ _LAST = {}
 
 
 def run_impl(case):
-    r = _run_rv(case) if case["kind"] == "rv" else _run_dev(case)
+    r = _run_rv(case) if case["kind"] == "rv" else (_run_tbl(case) if case["kind"] == "tbl" else _run_dev(case))
     _LAST["case"], _LAST["res"] = case, r
     return r
 
@@ -622,6 +658,8 @@ def nontrivial(case, out):
 def outcome_class(out):
     if out.startswith("dev"):
         return "dev " + out.split()[-1]
+    if "," in out or out.startswith("set-raised"):
+        return "table"
     t = out.split()
     return "rv decoded=%s result=%s" % ("yes" if t[0] not in ("-",) and not t[0].startswith("!") else t[0][:7],
                                          t[1].split(":")[0] if len(t) > 1 else "-")
@@ -630,4 +668,6 @@ def outcome_class(out):
 def finding_key(case, msg):
     if case["kind"] == "rv":
         return f"rv {case['rv']}#{case['variant']} {case['tg']} {case['tbl']}"
+    if case["kind"] == "tbl":
+        return f"tbl {case['parts']}"
     return f"dev {case['spec']['cls']} seed={case['seed']}"
